@@ -331,3 +331,73 @@ def sole_boundary_family():
             for r in rights:
                 out.append(l + b + r)
     return list(dict.fromkeys(out))
+
+
+
+def scale_family():
+    """counts beyond the ordinary (more than 255 captures, alternatives, components, class members, flags, repetitions):
+    whatever is indexed, counted or accumulated in a narrow type or a fixed buffer"""
+    n = 300
+    out = ["*/" * (n - 1) + "*",                                   # 300 captures, 300 components
+           "?" * n,                                                # 300 adjacent captures
+           "{" + ",".join("a%d" % i for i in range(n)) + "}",      # 300 alternatives
+           "{" + ",".join("a%d/*" % i for i in range(n)) + "}/**", # 300 alternatives spanning components
+           "[ab]" * n,
+           "[" + "".join(chr(0x100 + i) for i in range(n)) + "]x",  # 300 class members
+           "[!" + "".join("%s-%s" % (chr(0x400 + 2 * i), chr(0x401 + 2 * i)) for i in range(n)) + "]",
+           "a/" * n + "a",                                         # 301 components of invariant text
+           "a/" * n + "*",
+           "(?i)a(?-i)b" * 100 + "*",
+           "**/a/" * 40 + "**",
+           "<a:%d>" % n, "<a/:%d>x" % n, "<a:1,%d>" % n, "<*/:%d>b" % n, "x<{a,b}:%d,>" % n,
+           "<<a:17>:17>",                                          # 289 by nesting
+           "a" * n + "*", "é" * 300 + "/**",
+           "{a,b}" * 9, "{a,b}/" * 9 + "*",                       # 512 flat expansions
+           "*.{" + ",".join("e%d" % i for i in range(n)) + "}"]
+    return out
+
+
+
+def nest3_family(levels=3):
+    """a branch whose edge terminal is a boundary or a zero-or-more wildcard, at the edge of a branch (repetition or alternation)
+    that is itself at the edge of a third branch with an outside neighbour: what each level hands down to the next as context
+    (`levels` = 4 wraps the middle level twice)"""
+    inner = ["{a/,b}", "{/a,b}", "{a/**,b}", "{**/a,b}", "{a*,b}", "{*a,b}", "{a,b}", "<a/:1,2>", "</a:1,2>"]
+    mid = ["<%s:1,2>", "<%s:0,1>", "{%s,y}", "{y,%s}", "<%sq:1,2>", "<q%s:1,2>", "<%s:1>"]
+    outer = [("{x,%s}", 1), ("{%s,x}", 1), ("<%s:1,2>", 1), ("{x,%s}", 0), ("<%s:1>", 1), ("{%s}", 1)]
+    sides = [("", "/c"), ("c/", ""), ("", "*c"), ("c*", ""), ("p", ""), ("", "c"), ("**/", ""), ("", "/**"), ("", "")]
+    mids = mid if levels <= 3 else [a % b for a in mid for b in mid]
+    out = []
+    for o, _ in outer:
+        for m in mids:
+            for i in inner:
+                core = o % (m % i)
+                for l, r in sides:
+                    out.append(l + core + r)
+    return list(dict.fromkeys(out))
+
+
+
+def termination_family():
+    """every pair of terminations (open, first = begins with a separator, last = ends with one, closed = both, coalescent =
+    tree wildcard) of two ADJACENT terms of a concatenation, each term spelled as a leaf run, an alternation and a repetition,
+    between prefixes and suffixes that are rooted or not and end / begin inside a component: the 25-cell conjunction table of
+    the depth fold is reached cell by cell through computed (not leaf) terms"""
+    kinds = {
+        "open": ["a", "{a,b}", "<a:1,2>", "<a:2>", "{a,b/c}"],
+        "first": ["/a", "{/a,/b}", "</a:1,2>", "</a:2>", "{/a,/b/c}"],
+        "last": ["a/", "{a/,b/}", "<a/:1,2>", "<a/:2>", "{a/,b/c/}"],
+        "closed": ["/a/", "/", "{/a/,/b/}", "</a/:1>"],
+        "coal": ["**", "/**/", "**/", "/**"],
+    }
+    pres = ["", "/", "c", "/c", "c/"]
+    posts = ["", "c", "/c", "*"]
+    out = []
+    for X in kinds:
+        for Y in kinds:
+            for x in kinds[X]:
+                for y in kinds[Y]:
+                    for pre in pres:
+                        for post in posts:
+                            out.append(pre + x + y + post)
+    return list(dict.fromkeys(out))
